@@ -65,6 +65,13 @@ def make_data(pe, model, n, layout, key):
         if layout == 'indep':
             d = mean + sig * r.normal(size=30 + i)
             ys.append(pe.Obs([d], ['E%d|r1' % i]))
+        elif layout == 'factor':
+            # every point on its own ensemble times ONE common factor on a shared ensemble: the chain lists of the points differ
+            # pairwise but overlap, the points are correlated through the factor
+            if i == 0:
+                zfac = pe.Obs([1.0 + 0.04 * common], ['Z|r1'])
+            d = mean + 0.3 * sig * r.normal(size=30 + i)
+            ys.append(pe.Obs([d], ['E%d|r1' % i]) * zfac)
         else:
             d = mean + sig * (0.5 * common + 0.87 * r.normal(size=40))
             ys.append(pe.Obs([d], ['S|r1']))
@@ -105,7 +112,7 @@ def coefficient(param, chain, source):
 def build(tier, seed):
     cases = []
     for model in models():
-        for layout in ('indep', 'shared'):
+        for layout in ('indep', 'shared', 'factor'):
             for corr in (False, True):
                 if layout == 'indep' and corr:
                     continue     # independent ensembles: the estimated correlation matrix is the identity
@@ -221,6 +228,10 @@ def run_ls(pe, acc, case):
         return
     if res.dof != n - npar + (1 if use_prior else 0):
         acc.fail(sig + ':dof', sub, 'dof %r' % res.dof)
+        return
+    if layout == 'factor':       # stationary point of the documented (correlated) chi-square, its value and the degrees of freedom
+        acc.ok(repr(case), True, 'ls:common-factor' + (':corr' if corr else '') + (':prior' if use_prior else '') + (':numgrad' if ng else ''))
+        acc.sample(dict(case, points=n))
         return
     # (2) re-fit sensitivities for every data point (and the prior)
     kw2 = dict(kw, initial_guess=list(pfit))
